@@ -526,10 +526,21 @@ def do_case(case, j, seed, path, tmp, facts, stats, prop="C08"):
     rng = random.Random("%d/%s/%d" % (seed, case["id"], j))
     cf = case["cf"]
     conc = Conc(rng, cf, universe(case))
-    cleaner = make_cleaner(cf, conc, tmp)
     intern = Interner()
     events = []
     alltext = ""
+
+    def crashed(stage, ex):
+        # the code under test raised on a legal configuration / content: recorded, judged by the trace spec
+        stats["raised"] = stats.get("raised", 0) + 1
+        events.append({"ev": "raised", "stage": stage, "exc": type(ex).__name__})
+        return {"id": "%s/%d/%s" % (case["id"], j, path), "mode": "lines", "prop": prop, "cf": cf, "special": [],
+                "events": events, "concrete": {"fqdn": conc.fqdn, "lines": alltext.split("\n")[:8], "error": repr(ex)[:300],
+                                               "patterns": [conc.pat[i][0] for i in cf["pats"]]}}
+    try:
+        cleaner = make_cleaner(cf, conc, tmp)
+    except Exception as ex:
+        return crashed("init", ex)
     for si, spec in enumerate(case["content"]):
         nunm = 0
         lines = []
@@ -547,7 +558,10 @@ def do_case(case, j, seed, path, tmp, facts, stats, prop="C08"):
             lines.append(ln)
         alltext += "\n".join(l.text for l in lines) + "\n"
         tag = "%d-%d-%d" % (os.getpid(), stats["cleanings"], si)
-        out, stored, raised = run_spec(cleaner, spec["sp"], lines, path, tmp, tag)
+        try:
+            out, stored, raised = run_spec(cleaner, spec["sp"], lines, path, tmp, tag)
+        except Exception as ex:
+            return crashed("clean", ex)
         stats["cleanings"] += 1
         subs, maps = issued(cleaner, cf, conc)
         subs.add("********")
